@@ -3,6 +3,8 @@
    - spots light up only on trap sites of the layout       (EPickOffTrap) and pick the atom there
    - atoms are released only onto vacant trap sites        (EDropOffTrap / EDropOccupied)
    - a path's tone lists match the dimensions of its grids (EDims / ESel)
+   - two lit tones of one axis never sit at the same coordinate (ECollide): two tweezers on one
+     spot would claim one atom twice
    Atoms are never created or destroyed (Proofs/AodProofs.v).  Definitions only. *)
 From Coq Require Import String.
 From Coq Require Import ZArith QArith List Bool Arith.
@@ -12,7 +14,7 @@ Import ListNotations.
 Definition pos := (Q * Q)%type.
 Definition pos_eqb (a b : pos) : bool := Qeq_bool (fst a) (fst b) && Qeq_bool (snd a) (snd b).
 
-Inductive aerr := EJump | EDims | ESel | EPickOffTrap | EDropOffTrap | EDropOccupied | EIllFormed.
+Inductive aerr := EJump | EDims | ESel | EPickOffTrap | EDropOffTrap | EDropOccupied | EIllFormed | ECollide.
 Inductive ares (A : Type) := AOk (a : A) | AErr (e : aerr).
 Arguments AOk {A} a.
 Arguments AErr {A} e.
@@ -85,6 +87,10 @@ Definition add_tones (on_ : list (nat * Q)) (idx : list nat) (coords : list Q) :
 Definition remove_tones (on_ : list (nat * Q)) (idx : list nat) : list (nat * Q) :=
   filter (fun t => negb (existsb (Nat.eqb (fst t)) idx)) on_.
 
+Fixpoint distinct_q (l : list Q) : bool :=
+  match l with [] => true | a :: r => negb (existsb (Qeq_bool a) r) && distinct_q r end.
+Definition tones_apart (st : ast) : bool := distinct_q (map snd (xon st)) && distinct_q (map snd (yon st)).
+
 Definition sim_switch (st : ast) (k : onoff) (x y : sel) (nx ny : nat) (cur : list Q * list Q) : ares ast :=
   match select x nx, select y ny with
   | AErr e, _ | _, AErr e => AErr e
@@ -94,7 +100,7 @@ Definition sim_switch (st : ast) (k : onoff) (x y : sel) (nx ny : nat) (cur : li
           let before := map fst (spots st) in
           let st' := with_tones st (add_tones (xon st) sx (fst cur)) (add_tones (yon st) sy (snd cur)) in
           let fresh := filter (fun sp => negb (existsb (spot_eqb (fst sp)) before)) (spots st') in
-          fold_a pick1 st' fresh
+          if negb (tones_apart st') then AErr ECollide else fold_a pick1 st' fresh
       | Off =>
           let before := spots st in
           let st' := with_tones st (remove_tones (xon st) sx) (remove_tones (yon st) sy) in
@@ -114,7 +120,8 @@ Definition sim_waypoint (st : ast) (first : bool) (nx ny : nat) (w : list Q * li
   if negb ((length (fst w) =? nx) && (length (snd w) =? ny)) then AErr EDims else
   if first && negb (match held st with [] => true | _ => false end)
      && negb (same_place (xon st) (fst w) && same_place (yon st) (snd w)) then AErr EJump else
-  AOk (with_tones st (move_tones (xon st) (fst w)) (move_tones (yon st) (snd w))).
+  let st' := with_tones st (move_tones (xon st) (fst w)) (move_tones (yon st) (snd w)) in
+  if negb (tones_apart st') then AErr ECollide else AOk st'.
 
 Inductive saction :=
 | SWay (ws : list (list Q * list Q))
@@ -160,7 +167,8 @@ Definition atoms (st : ast) : list nat := map snd (occ st) ++ map snd (held st).
 Local Open Scope string_scope.
 Definition show_aerr (e : aerr) : string :=
   match e with EJump => "EJump" | EDims => "EDims" | ESel => "ESelector" | EPickOffTrap => "EPickOffTrap"
-             | EDropOffTrap => "EDropOffTrap" | EDropOccupied => "EDropOccupied" | EIllFormed => "EIllFormed" end.
+             | EDropOffTrap => "EDropOffTrap" | EDropOccupied => "EDropOccupied" | EIllFormed => "EIllFormed"
+             | ECollide => "ECollide" end.
 Fixpoint insert_occ (o : pos * nat) (l : list (pos * nat)) : list (pos * nat) :=
   match l with
   | [] => [o]
